@@ -285,19 +285,35 @@ def forward (P : Params) (s : Node) (e : Env) : Node :=
   { s with md := (forwardReports P s e).1.md, log := s.log ++ sends,
            stored := !(sends.any (·.ok) && s.conn.contains s.dest) }
 
-def step (P : Params) (s : Node) : Event → Node
+/-- What an event does before (possibly) forwarding the bundle: the node handed to `forward` and the
+environment of that forwarding step (`none`: the event does not forward). -/
+def prepare (s : Node) : Event → Node × Option Env
   | .submit e =>
-    forward P { s with md := some (notify s.algo s.l ⟨true, none, none⟩), stored := true,
-                       bblock := none } e
+    ({ s with md := some (notify s.algo s.l ⟨true, none, none⟩), stored := true, bblock := none }, some e)
   | .receive b prev e =>
-    forward P { s with md := some (notify s.algo s.l ⟨false, b, prev⟩), stored := true,
-                       bblock := b } e
-  | .peerUp p e => forward P { s with conn := if s.conn.contains p then s.conn else s.conn ++ [p] } e
-  | .peerDown p => { s with conn := s.conn.erase p }
-  | .tick e => forward P s e
-  | .restart => { s with md := none, conn := [] }
+    ({ s with md := some (notify s.algo s.l ⟨false, b, prev⟩), stored := true, bblock := b }, some e)
+  | .peerUp p e => ({ s with conn := if s.conn.contains p then s.conn else s.conn ++ [p] }, some e)
+  | .peerDown p => ({ s with conn := s.conn.erase p }, none)
+  | .tick e => (s, some e)
+  | .restart => ({ s with md := none, conn := [] }, none)
+
+def step (P : Params) (s : Node) (ev : Event) : Node :=
+  match prepare s ev with
+  | (s', some e) => forward P s' e
+  | (s', none) => s'
 
 def run (P : Params) (s : Node) (evs : List Event) : Node := evs.foldl (step P) s
+
+/-- The schedule of the event's forwarding step lets all failure reports finish. -/
+def stepComplete (P : Params) (s : Node) (ev : Event) : Bool :=
+  match prepare s ev with
+  | (s', some e) => forwardComplete P s' e
+  | (_, none) => true
+
+/-- Every forwarding step of the history has a complete schedule (what `wg.Wait()` enforces). -/
+def runComplete (P : Params) (s : Node) : List Event → Bool
+  | [] => true
+  | ev :: evs => stepComplete P s ev && runComplete P (step P s ev) evs
 
 def Event.isEntry : Event → Bool
   | .submit _ => true
